@@ -30,6 +30,9 @@ type hclient struct {
 	closedByServer bool
 	onDone  func()
 	holdOpen bool // keep the connection open after the last response (caller closes)
+	needResp []int // per segment: number of final responses that must have arrived before it is sent (sequential keep-alive requests)
+	abortAt  int   // >0: reset the connection instead of sending segment number abortAt (fault)
+	onAbort  func()
 }
 
 // cutBytes cuts b at up to n random points.
@@ -72,7 +75,18 @@ func (h *hclient) events(add func(sim.Event)) {
 		}})
 		return
 	}
-	if h.next < len(h.segs) {
+	if h.abortAt > 0 && h.next >= h.abortAt && !h.w.C.NoFaults {
+		add(sim.Event{Key: fmt.Sprintf("fault.client-abort/c%03d", h.id), Actor: actor, Fire: func() {
+			h.aborted = true
+			h.w.C.Fault("client-abort-mid-request")
+			h.end.Conn().Reset("client aborts")
+			if h.onAbort != nil {
+				h.onAbort()
+			}
+		}})
+		return
+	}
+	if h.next < len(h.segs) && (h.next >= len(h.needResp) || len(h.finals()) >= h.needResp[h.next]) {
 		add(sim.Event{Key: fmt.Sprintf("client.send/c%03d", h.id), Actor: actor, Fire: func() {
 			h.end.Send(h.segs[h.next])
 			h.next++
